@@ -55,8 +55,8 @@ RleEq(a, b) ==
               rb == IF Head(b)[1] = n THEN Tail(b) ELSE <<<<Head(b)[1] - n, Head(b)[2]>>>> \o Tail(b)
           IN RleEq(ra, rb)
 
-NewSec(order, align) ==
-  [order |-> order, align |-> EffAlign(align), data |-> <<>>, buf |-> 0, uv |-> 0, vsize |-> 0, off |-> -1,
+NewSec(name, order, align) ==
+  [name |-> name, order |-> order, align |-> EffAlign(align), data |-> <<>>, buf |-> 0, uv |-> 0, vsize |-> 0, off |-> -1,
    patch |-> FALSE]
 
 LInit == /\ secs = <<>>
@@ -97,18 +97,29 @@ BytesEndOf(t) == IF t = <<>> THEN 0
 (* ------------------------------ building ------------------------------ *)
 (* new_section(name, flags, alignment, order).  `id`, `count` are what the code reported. *)
 NewSectionValid(nameLen, align) == nameLen <= 35 /\ (align = 0 \/ IsPow2(align))
-NewSectionWhy(nameLen, order, align, r, id, count) ==
+(* `rname` = the new section's name() read back as a C string *)
+NewSectionWhy(name, nameLen, order, align, r, id, count, rname) ==
   IF r = "Ok"
     THEN (IF id # Len(secs) THEN {"section-id"} ELSE {})
          \cup (IF count # Len(secs) + 1 THEN {"section-count"} ELSE {})
+         \cup (IF rname # name THEN {"name-not-stored"} ELSE {})
     ELSE (IF NewSectionValid(nameLen, align) THEN {"refused-valid-section"} ELSE {})
          \cup (IF count # Len(secs) THEN {"section-count"} ELSE {})
-NewSectionEffect(order, align, r) ==
-  /\ secs' = IF r = "Ok" THEN Append(secs, NewSec(order, align)) ELSE secs
+NewSectionEffect(name, order, align, r) ==
+  /\ secs' = IF r = "Ok" THEN Append(secs, NewSec(name, order, align)) ELSE secs
   /\ est' = {}                      \* an estimate only counts for the configuration it was computed from
   /\ UNCHANGED <<phase, atid>>
-NewSectionOk(nameLen, order, align, r, id, count) ==
-  NewSectionWhy(nameLen, order, align, r, id, count) = {} /\ NewSectionEffect(order, align, r)
+NewSectionOk(name, nameLen, order, align, r, id, count, rname) ==
+  NewSectionWhy(name, nameLen, order, align, r, id, count, rname) = {} /\ NewSectionEffect(name, order, align, r)
+
+(* section_by_name(q) returned section id `id` (-1 = null).  Any section carrying exactly that name is a *)
+(* valid answer (duplicates are legal); a name nobody carries must not be found.                          *)
+LookupWhy(q, id) ==
+  LET named == {i \in 1 .. Len(secs) : secs[i].name = q} IN
+  IF named = {} THEN (IF id # -1 THEN {"lookup-found-section-with-another-name"} ELSE {})
+  ELSE IF id = -1 THEN {"lookup-missed-existing-section"}
+  ELSE IF id + 1 \notin named THEN {"lookup-found-section-with-another-name"} ELSE {}
+LookupOk(q, id) == LookupWhy(q, id) = {} /\ UNCHANGED lvars
 
 (* bytes appended to section i (index) through an emitter; `nbuf` = reported buffer_size() *)
 EmbedWhy(i, rle, nbuf) ==
@@ -129,13 +140,13 @@ SetVSizeEffect(i, v) ==
 SetVSizeOk(i, v, rv) == SetVSizeWhy(i, v, rv) = {} /\ SetVSizeEffect(i, v)
 
 (* new section with bytes and virtual size in one step (used by LayoutImpl only) *)
-NewSectionFull(order, align, rle, v) ==
-  /\ secs' = Append(secs, [NewSec(order, align) EXCEPT !.data = rle, !.buf = RleLen(rle), !.uv = v, !.vsize = v])
+NewSectionFull(name, order, align, rle, v) ==
+  /\ secs' = Append(secs, [NewSec(name, order, align) EXCEPT !.data = rle, !.buf = RleLen(rle), !.uv = v, !.vsize = v])
   /\ est' = {}
   /\ UNCHANGED <<phase, atid>>
 
 (* The address table is a section the code creates by itself; its attributes are taken as reported. *)
-(* at = [id, align, order, vsize, buf] as reported after the call that may have created / grown it. *)
+(* at = [id, name, align, order, vsize, buf] as reported after the call that may have created / grown it. *)
 AddrTabWhy(at) ==
   IF atid = 0
     THEN (IF at.id # Len(secs) THEN {"addrtab-id"} ELSE {})
@@ -143,7 +154,7 @@ AddrTabWhy(at) ==
          \cup (IF at.vsize < secs[atid].vsize THEN {"addrtab-shrunk-while-building"} ELSE {})
 AddrTabSecs(s, at) ==
   IF atid = 0
-    THEN Append(s, [NewSec(at.order, at.align) EXCEPT !.uv = at.vsize, !.vsize = at.vsize, !.buf = at.buf])
+    THEN Append(s, [NewSec(at.name, at.order, at.align) EXCEPT !.uv = at.vsize, !.vsize = at.vsize, !.buf = at.buf])
     ELSE [s EXCEPT ![atid].uv = at.vsize, ![atid].vsize = at.vsize]
 (* a far jmp/call emitted into section i: bytes `rle` appended (read back), table as reported *)
 FarWhy(i, rle, nbuf, at) == EmbedWhy(i, rle, nbuf) \cup AddrTabWhy(at)
